@@ -100,6 +100,8 @@ Init == bel = {} /\ ln = 1 /\ tags = {} /\ mon = Mon0
 
 \* bounded-time obligations derived from the configuration (ms)
 DeliverBound(cfg) == 1500 * cfg.max_interval + 1000 * (cfg.auto_retry + 2) + 2000 + SLACK
+GiveUpMin(cfg) == IF 1000 * cfg.max_retry - 1500 * cfg.max_interval - 600 > 0
+                  THEN 1000 * cfg.max_retry - 1500 * cfg.max_interval - 600 ELSE 0
 GiveUpBound(cfg) == 1000 * (cfg.auto_retry + 2) + 1000 * cfg.max_retry + 1500 * cfg.max_interval + 1000 + SLACK
 
 Touch(m, ts, ts2) == [m EXCEPT !.since = [t \in Towers |-> IF t \in ts THEN ts2 ELSE @[t]],
@@ -165,6 +167,11 @@ TimingTags(e, m) ==
       (IF m.downAt[t] >= 0 /\ m.tuAt[t] >= 0 /\ e.ts - m.tuAt[t] > GiveUpBound(m.cfg) /\ ~m.sawUnr[t]
           /\ "EndsUnreachable" \notin m.flagged
        THEN T("C13", "EndsUnreachable.not_within_bound") ELSE {})
+      \cup
+      \* ... and not before the retry strategy can be exhausted (it backs off and tries again first)
+      (IF m.downAt[t] >= 0 /\ m.tuAt[t] >= 0 /\ ~mon.sawUnr[t] /\ (\E x \in me : x.status = "unreachable")
+          /\ e.ts - m.tuAt[t] < GiveUpMin(m.cfg) /\ "GaveUpEarly" \notin m.flagged
+       THEN T("C13", "EndsUnreachable.gave_up_early") ELSE {})
       : t \in Towers}
 
 ObsMon(e, m) ==
@@ -248,7 +255,8 @@ R(e, C) ==
                   [m2 EXCEPT !.flagged = @ \cup {x[3] : x \in {y \in tt : y[3] = "Delivered.not_within_bound"}}
                                            \cup (IF \E y \in tt : y[3] = "Delivered.not_within_bound" THEN {"Delivered"} ELSE {})
                                            \cup (IF \E y \in tt : y[3] = "EndsUnreachable.not_within_bound" THEN {"EndsUnreachable"} ELSE {})
-                                           \cup (IF \E y \in tt : y[3] = "RegRecorded.unverifiable_receipt_stored" THEN {"RegRecorded"} ELSE {})])))))
+                                           \cup (IF \E y \in tt : y[3] = "RegRecorded.unverifiable_receipt_stored" THEN {"RegRecorded"} ELSE {})
+                                           \cup (IF \E y \in tt : y[3] = "EndsUnreachable.gave_up_early" THEN {"GaveUpEarly"} ELSE {})])))))
       [] e.ev = "probe" ->
            Let1({s \in C : e.answered = (s.alive /\ ~s.poisoned)}, LAMBDA B :
               IF B # {} THEN Res(B, {}, mon) ELSE Res(C, T("C14", "Survives.probe_not_answered"), mon))
